@@ -33,6 +33,9 @@ def cases(ctx):
 def options(rng):
     o = M.options(rng)
     o["words"] = sorted(set(o["words"]) | set(rng.sample(["netconan", "removed", "scrubbed", "sensitive", "line"], rng.randint(0, 3))))
+    if rng.random() < 0.5:
+        w = rng.choice(o["words"])
+        o["reserved"] = [rng.choice(["My", "big-", ""]) + w + rng.choice(["Box", "-lab", "01"]), "MyZurichBox"]
     o["asns"] = sorted(set(o["asns"]) | set(rng.sample(["10", "255", "1", "0", "65000", "24", "64"], rng.randint(0, 4))))
     if rng.random() < 0.5:
         # listed words that overlap address text (hex words, digits): the stage order decides what they see
@@ -64,6 +67,11 @@ def check_case(ctx, case):
     if src and not src.endswith("\n"):
         src += "\n"
     src += "".join(rng.sample(OVERLAP_LINES, rng.randint(1, 4)))
+    if opts.get("reserved"):
+        # tokens that are the user's reserved words (they contain listed words): every stage that honours
+        # reserved words must do so whatever else is switched on
+        for r in opts["reserved"]:
+            src += "hostname %s\n description link to %s and %s-x\n" % (r, r, r)
     combined = run_one(nc, opts, feats, src, undo)
     chained = src
     for f in ORDER:
